@@ -328,7 +328,6 @@ def probes(case, res):
             1 for t in wi if (t['runtime_context'] or {}).get('concurrency')),
         'rerun_ok': sum(1 for o in res.ops_log if o['result'] and
                         o['result'][0] == 'ok'),
-        'named_lock_waits': st.get('sem_wait', 0),
     }
 
 
